@@ -697,6 +697,9 @@ def kind_from_dtype(dt):
         return dt
     if isinstance(dt, DType):
         return dt._k
+    nm = getattr(dt, "__name__", "")
+    if nm in ("s_bool", "s_int", "s_float"):       # the builtin shims of amode stand for the builtins
+        dt = {"s_bool": bool, "s_int": int, "s_float": float}[nm]
     if dt is None or dt is float:
         return REAL
     if dt is int:
